@@ -57,6 +57,7 @@ type Struct struct {
 	Group   string
 	Writer  int
 	Anonymous bool
+	Boom    bool // InitDefault panics while universe.Boom is set
 }
 
 var structs []*Struct
@@ -1297,6 +1298,69 @@ func containsByValue(t *Ty, sid int) bool {
 	return false
 }
 
+// user code that fails during a descriptor build (C07 / C08, D21): graphs like groupGraphs, all
+// members valid, some with an InitDefault that panics while universe.Boom is set.  The first graph
+// is the shape of D21: Outer{*Inner, *Leaf} with a panicking Leaf.  Own random stream: the groups
+// before keep their members.
+func groupBoom(seed int64, g, m int) {
+	r := rand.New(rand.NewSource(seed*7919 + 13))
+	{
+		inner, leaf, outer := newStruct("boom"), newStruct("boom"), newStruct("boom")
+		inner.add("V", prim("int32"), 1, "default")
+		leaf.add("X", prim("int64"), 1, "default")
+		leaf.HasInit, leaf.Boom = true, true
+		leaf.Fields[0].Dflt, leaf.Fields[0].DfltVal = "5", "n5"
+		outer.add("A", ptr(sref(inner)), 1, "optional")
+		outer.add("B", ptr(sref(leaf)), 2, "optional")
+	}
+	for gi := 0; gi < g; gi++ {
+		var ms []*Struct
+		for i := 0; i < m; i++ {
+			ms = append(ms, newStruct("boom"))
+		}
+		nb := 1 + r.Intn(2)
+		for i := 0; i < nb; i++ {
+			b := ms[r.Intn(m)]
+			b.HasInit, b.Boom = true, true
+		}
+		for i, st := range ms {
+			st.add("V", prim("int32"), 1, "default")
+			if st.Boom {
+				st.Fields[0].Dflt, st.Fields[0].DfltVal = "7", "n7"
+			}
+			ne := 1 + r.Intn(3)
+			for e := 0; e < ne; e++ {
+				j := r.Intn(m)
+				var t *Ty
+				req := "default"
+				switch r.Intn(5) {
+				case 0:
+					if j < i {
+						t = sref(ms[j])
+					} else {
+						t = ptr(sref(ms[j]))
+						req = "optional"
+					}
+				case 1:
+					t = ptr(sref(ms[j]))
+					req = "optional"
+				case 2:
+					t = list(ptr(sref(ms[j])))
+				case 3:
+					t = mapOf(prim("string"), ptr(sref(ms[j])))
+				default:
+					if j < i {
+						t = list(sref(ms[j]))
+					} else {
+						t = set(ptr(sref(ms[j])))
+					}
+				}
+				st.add(fmt.Sprintf("E%d", e), t, 2+e, req)
+			}
+		}
+	}
+}
+
 // ---------- emission ----------
 
 func emit(outDir string) {
@@ -1310,6 +1374,9 @@ func emit(outDir string) {
 		init := 0
 		if s.HasInit {
 			init = 1
+		}
+		if s.Boom {
+			init = 2
 		}
 		fmt.Fprintf(&u, "struct %d %s %d\n", s.Sid, s.Name, init)
 		for _, f := range s.Fields {
@@ -1346,6 +1413,9 @@ func emit(outDir string) {
 		g.WriteString("}\n\n")
 		if s.HasInit {
 			fmt.Fprintf(&g, "func (p *%s) InitDefault() {\n", s.Name)
+			if s.Boom {
+				g.WriteString("\tif Boom.Load() {\n\t\tpanic(\"universe: defaults not ready\")\n\t}\n")
+			}
 			for _, f := range s.Fields {
 				if f.Dflt != "" {
 					fmt.Fprintf(&g, "\tp.%s = %s\n", f.Name, f.Dflt)
@@ -1372,8 +1442,8 @@ func emit(outDir string) {
 			}
 		}
 		sort.Slice(fs, func(i, j int) bool { return fs[i].id < fs[j].id })
-		fmt.Fprintf(&g, "\t\t{Sid: %d, Name: %q, Type: reflect.TypeOf(%s{}), Accept: %v, Holder: %v, Group: %q, Writer: %d, Fields: []UField{",
-			s.Sid, s.Name, s.Name, s.Accept, holder, s.Group, s.Writer)
+		fmt.Fprintf(&g, "\t\t{Sid: %d, Name: %q, Type: reflect.TypeOf(%s{}), Accept: %v, Holder: %v, Group: %q, Writer: %d, Boom: %v, Fields: []UField{",
+			s.Sid, s.Name, s.Name, s.Accept, holder, s.Group, s.Writer, s.Boom)
 		for _, f := range fs {
 			fmt.Fprintf(&g, "{%q, %d, %d}, ", f.name, f.id, f.idx)
 		}
@@ -1419,6 +1489,7 @@ func main() {
 	groupClusters(10, 14)
 	groupGraphs(8, 7)
 	groupRandom(*nrand, *depth)
+	groupBoom(*seed, 4, 5)
 	emit(*out)
 	fmt.Printf("gentypes: %d structs\n", len(structs))
 }
